@@ -15,7 +15,7 @@ RULE = (
     "text-like fields, empty flags, Integer fields with rule (one part, or three parts in any order) / with length only / with neither, lengths of several parts in any order; for a quarter of them the CID grows through the API after a first statement and the same factory is asked again; for a quarter of them also sql.write_create() (the command "
     "line's --create) on the CID stored as CSV, ODS and Excel. The CREATE TABLE text is "
     "parsed back into columns and compared with M-ddl: one column per field in order; quoted iff the name is a keyword of "
-    "the dialect (plus an anchor list that must stay quoted everywhere and reserved words of single dialects taken from the vendors' lists); NOT NULL iff not allowed to be empty; Integer column "
+    "the dialect (plus an anchor list that must stay quoted everywhere and the reserved words of each dialect written down from the vendors' lists - cpverif/props/c19_reserved.py - every one of which is used as a column name); NOT NULL iff not allowed to be empty; Integer column "
     "type's interval contains both limits; Decimal (total, fraction) digits; text length = upper length limit. A case is "
     "(dialect, field declaration); distinct by digest; non-trivial when a limit is within 1 of a type boundary, the name is "
     "a keyword, or a Decimal rule / length is present."
@@ -39,6 +39,10 @@ DIALECT_ANCHOR_KEYWORDS = {
     "Transact-SQL": ["order"],
     "ANSI": ["order"],
 }
+from cpverif.props import c19_reserved  # noqa: E402
+
+for _dialect, _words in c19_reserved.RESERVED.items():
+    DIALECT_ANCHOR_KEYWORDS[_dialect] = sorted(set(DIALECT_ANCHOR_KEYWORDS[_dialect]) | set(_words))
 # the largest precision a decimal column type can have
 MAX_PRECISION = {"PL/SQL": 38, "Transact-SQL": 38, "DB2": 31}
 INTERVALS = {
@@ -330,6 +334,18 @@ def run(ctx):
         check_cid(ctx, fields)
     ctx.exhaustive = True
     ctx.note("exhaustive part: all %d Integer ranges over the boundary set x 4 dialects; names, Decimal rules and lengths are sampled" % len(pairs))
+    # ---- (1b) every reserved word of every dialect as a column name, in one of three casings
+    for dialect_name in sorted(DIALECT_ANCHOR_KEYWORDS):
+        words = [w for w in DIALECT_ANCHOR_KEYWORDS[dialect_name] if usable_name(w)]
+        for start in range(0, len(words), 6):
+            if not ctx.mine(start // 6):
+                continue
+            fields = []
+            for k, word in enumerate(words[start : start + 6]):
+                name = [word, word.upper(), word.capitalize()][(start + k) % 3]
+                fields.append({"name": name, "type": "Text", "empty": k % 2 == 0, "length": "", "rule": "", "upper_length": None})
+            check_cid(ctx, fields, [dialect_name])
+            ctx.count("reserved-word-columns", len(fields))
     # ---- (2) generated CIDs
     all_keywords = {}
     for name, dialect in sql.SQL_NAME_TO_DIALECT_MAP.items():
